@@ -97,7 +97,7 @@ for _p, _r, _k in [
         ('C07', 'C07.T1', 'compile/ts:status-effect:return/written/after-partial-file'),
         ('C09', 'C09.T1', 'compile/ts:failed-pairing:return/in-failed/after-partial-file'),
         ('C10', 'C10.T1', 'compile/ts:fresh:return/status/after-partial-file'),
-        ('C19', 'C19.T1', 'compile/ts:borrow-failed-only:store@builtMibs/after-partial-file'),
+        ('C19', 'C19.T1', 'compile/ts:borrow-failed-only:store@module-text-record/after-partial-file'),
         ('C20', 'C20.T1', 'compile/ts:status-effect:return/written/after-partial-file')]:
     OPEN.append((_p, _r, _k, F44, F44_W))
 
@@ -136,6 +136,9 @@ FIXED = [
      'written yet reported missing (and aborted the call without ignoreErrors; a borrower could replace its generated '
      'text)', 'C07.T1'),
     ('C19', '0f7b56c', 'F43 (same defect) generated code of such a module was replaced by a borrowed copy', 'C19.T1'),
+    ('C10', '6ef3686', 'F45 under noDeps an explicitly requested module that has no file of its own but was found '
+     'inside another source file was reported untouched and never generated (the filter looked only at the names of '
+     'modules read through a requested fetch)', 'C10.T1'),
 ]
 
 out = {
